@@ -65,6 +65,10 @@ func c14DirStmts(objs []string) [][]string {
 	if has("trigger") {
 		f3 = append(f3, "CREATE TRIGGER posts_ai AFTER INSERT ON posts BEGIN UPDATE users SET name = 'x' WHERE id = new.user_id; END;")
 	}
+	if has("txn") {
+		// the file manages its own transaction: a statement failing inside it leaves the transaction open
+		f3 = append(append([]string{"BEGIN;"}, f3...), "COMMIT;")
+	}
 	return [][]string{f1, f2, f3}
 }
 
@@ -72,7 +76,7 @@ func c14Desired(objs []string) []string {
 	var out []string
 	for _, f := range c14DirStmts(objs) {
 		for _, s := range f {
-			if strings.HasPrefix(s, "ALTER TABLE users ADD COLUMN") {
+			if strings.HasPrefix(s, "ALTER TABLE users ADD COLUMN") || s == "BEGIN;" || s == "COMMIT;" {
 				continue
 			}
 			if strings.HasPrefix(s, "CREATE TABLE users") {
@@ -92,7 +96,7 @@ func (c *c14Case) usesDir() bool {
 
 func (c *c14Case) usesSQLSrc() bool {
 	switch c.Cmd {
-	case "migrate-diff-sql", "schema-apply-sql", "schema-diff", "schema-inspect":
+	case "migrate-diff-sql", "schema-apply-sql", "schema-diff", "schema-inspect", "migrate-diff-sqldir", "schema-apply-sqldir", "schema-diff-sqldir":
 		return true
 	}
 	return false
@@ -142,9 +146,11 @@ table "extra" {
 `
 
 func c14Cases(e *Env) []c14Case {
-	cmds := []string{"migrate-diff-sql", "migrate-diff-hcl", "migrate-validate", "migrate-lint", "migrate-lint-checkpoint", "migrate-validate-checkpoint", "schema-apply-sql", "schema-apply-hcl", "schema-diff", "schema-inspect"}
+	cmds := []string{"migrate-diff-sql", "migrate-diff-hcl", "migrate-validate", "migrate-lint", "migrate-lint-checkpoint", "migrate-validate-checkpoint", "schema-apply-sql", "schema-apply-hcl", "schema-diff", "schema-inspect",
+		// the desired state given as a DIRECTORY of SQL schema files (no atlas.sum): replayed on the dev database like a migration directory
+		"migrate-diff-sqldir", "schema-apply-sqldir", "schema-diff-sqldir"}
 	devs := []string{"missing", "empty", "table", "table-index-trigger", "view", "revisions", "two-tables", "virtual-fts", "virtual-rtree"}
-	objsets := [][]string{{"table"}, {"table", "index", "view", "trigger"}}
+	objsets := [][]string{{"table"}, {"table", "index", "view", "trigger"}, {"table", "txn"}}
 	var out []c14Case
 	for _, cmd := range cmds {
 		for _, dev := range devs {
@@ -157,7 +163,7 @@ func c14Cases(e *Env) []c14Case {
 				if dev != "missing" && dev != "empty" {
 					continue
 				}
-				if dev == "empty" && !e.Thorough() && oi > 0 {
+				if dev == "empty" && !e.Thorough() && oi == 1 {
 					continue
 				}
 				if c.usesDir() {
@@ -211,7 +217,7 @@ func runC14(e *Env) error {
 	}
 	defer pool.Close()
 	cases := c14Cases(e)
-	e.Res.Rule = "commands {migrate diff (SQL/HCL desired), migrate validate, migrate lint, schema apply (SQL/HCL), schema diff, schema inspect} x dev database {missing, empty, table+rows, table+index+trigger, view only, revision table only, two tables, virtual tables only (fts4 with rows / rtree)} x object kinds created by the sources {tables | tables+index+view+trigger} x failing statement at EVERY position of the replayed directory and of the desired SQL schema; dev database opened through the sqlitev:// hook (operation trace); monitors: non-empty dev => command fails, no write operation on dev, file bytes identical; empty dev => dump empty afterwards (success or failure); directory bytes unchanged (migrate diff: only a new file + atlas.sum); outcome == Lean model Atlas.Dev; non-trivial = dev database non-empty or a statement fails; distinct by case"
+	e.Res.Rule = "commands {migrate diff (SQL file / HCL / directory of SQL schema files as the desired state), migrate validate, migrate lint, schema apply (SQL/HCL), schema diff, schema inspect} x dev database {missing, empty, table+rows, table+index+trigger, view only, revision table only, two tables, virtual tables only (fts4 with rows / rtree)} x object kinds created by the sources {tables | tables+index+view+trigger | tables with a file that opens its own transaction (BEGIN ... COMMIT)} x failing statement at EVERY position of the replayed directory and of the desired SQL schema; dev database opened through the sqlitev:// hook (operation trace); monitors: non-empty dev => command fails, no write operation on dev, file bytes identical; empty dev => dump empty afterwards (success or failure); directory bytes unchanged (migrate diff: only a new file + atlas.sum); outcome == Lean model Atlas.Dev; non-trivial = dev database non-empty or a statement fails; distinct by case"
 	var mu sync.Mutex
 	viol := func(kind, sig, what, check string, rep any) {
 		mu.Lock()
@@ -272,6 +278,12 @@ func runC14(e *Env) error {
 			des.WriteString(c14Bad + "\n")
 		}
 		os.WriteFile(filepath.Join(dir, "desired.sql"), []byte(des.String()), 0o644)
+		// the same statements as a directory of two schema files without a sum file
+		os.MkdirAll(filepath.Join(dir, "desired_dir"), 0o755)
+		lines := strings.SplitAfter(des.String(), "\n")
+		half := len(lines) / 2
+		os.WriteFile(filepath.Join(dir, "desired_dir", "1_a.sql"), []byte(strings.Join(lines[:half], "")), 0o644)
+		os.WriteFile(filepath.Join(dir, "desired_dir", "2_b.sql"), []byte(strings.Join(lines[half:], "")), 0o644)
 		os.WriteFile(filepath.Join(dir, "from.sql"), []byte("CREATE TABLE users (id integer NOT NULL);\n"), 0o644)
 		os.WriteFile(filepath.Join(dir, "desired.hcl"), []byte(c14HCL), 0o644)
 		// dev database
@@ -285,6 +297,7 @@ func runC14(e *Env) error {
 		devBefore := dumpDB(devp)
 		rawBefore, _ := os.ReadFile(devp)
 		treeBefore := hashTree(filepath.Join(dir, "m"))
+		srcBefore := hashTree(filepath.Join(dir, "desired_dir"))
 		dev := "sqlitev://dev.sqlite"
 		var args []string
 		switch c.Cmd {
@@ -308,6 +321,12 @@ func runC14(e *Env) error {
 			args = []string{"schema", "diff", "--from", "file://from.sql", "--to", "file://desired.sql", "--dev-url", dev}
 		case "schema-inspect":
 			args = []string{"schema", "inspect", "--url", "file://desired.sql", "--dev-url", dev}
+		case "migrate-diff-sqldir":
+			args = []string{"migrate", "diff", "new", "--dir", "file://m", "--to", "file://desired_dir", "--dev-url", dev}
+		case "schema-apply-sqldir":
+			args = []string{"schema", "apply", "--url", "sqlite://target.sqlite", "--to", "file://desired_dir", "--dev-url", dev, "--auto-approve"}
+		case "schema-diff-sqldir":
+			args = []string{"schema", "diff", "--from", "file://from.sql", "--to", "file://desired_dir", "--dev-url", dev}
 		}
 		tr := filepath.Join(dir, "trace.txt")
 		o := runAtlas(e, dir, map[string]string{"VERIF_TRACE": tr, "VERIF_TRACE_READS": "1"}, args...)
@@ -391,6 +410,18 @@ func runC14(e *Env) error {
 					changed = append(changed, "+"+n)
 				}
 			}
+		}
+		// the directory of schema files given as the desired state is an input: never written, success or failure
+		srcAfter := hashTree(filepath.Join(dir, "desired_dir"))
+		if hxJSON(srcBefore) != hxJSON(srcAfter) {
+			var names []string
+			for n := range srcAfter {
+				if srcBefore[n] != srcAfter[n] {
+					names = append(names, n)
+				}
+			}
+			sort.Strings(names)
+			viol("failing-input", "directory-written", fmt.Sprintf("%s (exit %d): the directory of schema files given as the desired state was modified: %v", strings.Join(args, " "), o.Code, names), "Props.C14.dir_untouched", rep)
 		}
 		sort.Strings(changed)
 		if len(changed) > 0 || added > 1 {
